@@ -43,7 +43,7 @@ GEN = {
             "minlength/maxlength/length on string fields with N in {0,1,2,3,5,10}; values: strings of N-1, N, N+1 code points made of 1-, 2-, 3-, 4-byte runes and invalid bytes, mixed tails, byte-length-N strings with fewer code points"),
     "C04": ("c04", "", "Gvlean.Props.C04", ["Props.c04", "Props.c04_meaning", "Props.c04_guard"], ["spec", "gen_fail", "build"],
             "minitems/maxitems on []string, []int, []byte (ASCII and multi-byte content), [3]int, [1]string, map[string]int, chan int and named types over them; lengths 0..N+2, nil vs empty, channels with k buffered elements"),
-    "C05": ("c05", "", "Gvlean.Props.C05", ["Props.c05", "Props.c05_zero_not_special", "Props.c05_item_forms"], ["spec", "gen_fail", "build"],
+    "C05": ("c05", "", "Gvlean.Props.C05", ["Props.c05", "Props.c05_zero_not_special", "Props.c05_item_forms", "Props.c05_numeric"], ["spec", "gen_fail", "build"],
             "enum lists of 1..8 items (duplicates, padded items, non-ASCII) on string, every integer kind, float32/64 and named types; values: every item, case changes, prefixes, +-1, padded forms, the zero value"),
     "C06": ("c06", "", "Gvlean.Props.C06", ["Props.c06", "Props.c06_languages", "Props.c06_alpha", "Props.c06_numeric"], ["spec", "gen_fail", "build"],
             "the seven format markers on string fields, top level and nested; values: member / non-member corpora per language (incl. the seeded-change triggers: DEL in local part, U+0161, '{' host, control byte in UUID, Latin-1 bytes)"),
@@ -74,7 +74,26 @@ def _gen_prop(pid):
         gen.fill_coverage(res, ev, rows, "corr-gen + corr-sem: " + rule + "; every scenario is generated by the real govalid binary built from the working tree, dumped structurally (go/parser), compiled and run; each (struct, value) is evaluated by the compiled Lean model (modeldrv) and by the Spec (specdrv); distinct by (declaration, value); non-trivial = at least one rule violated (C19/C15/C16/C17: every evaluated value)", nontriv)
         res.assumptions += ["Go values modelled by Gvlean/Go/Val.lean (ints as Int, floats as IEEE bit patterns decoded exactly)",
                             "marker parameters restricted to decimal literals representable in the field type"]
-        gen.report(res, ev, broken, aspects)
+        if pid == "C17":
+            # the hand-written recognizers on their own structured generators, under recover()
+            n = 0
+            for fn in ("uuid", "url", "email", "alpha", "numeric"):
+                rows = rec.harness_rec(fn, res.tier, res.seed)
+                n += len(rows)
+                bad = [r for r in rows if r[2] == "panic"]
+                if bad:
+                    bad.sort(key=lambda r: len(r[1]))
+                    res.violation("input", {"kind": "rec-input", "fn": fn, "hex": bad[0][1], "impl": "panic", "spec": "no panic (any verdict)",
+                                            "input": bytes.fromhex(bad[0][1] if bad[0][1] != "-" else "").decode("utf-8", "replace"), "count": len(bad)}, True)
+                    break
+            res.cov["evaluations"] += n
+            res.cov["distribution"]["recognizer-inputs-under-recover"] = n
+        if pid == "C15":
+            cel.ctx_check(res)
+        if pid == "C16":
+            cel.race_check(res)
+        if not res.violations:
+            gen.report(res, ev, broken, aspects)
     return run
 
 
